@@ -197,7 +197,14 @@ Print Assumptions c07_negative_raw_rejected.
    HONEST LABEL: by construction of the model (downsample_genes sets the flag, to_log2cpm tests
    it: a two-line unfolding).  The content is in the tie: harness/props/c07.py (ops_cases) runs
    random sequences of the real CellByGeneMatrix.to_log2CPM(_in_place) / downsample_genes
-   (_in_place) against make_cbg / to_log2cpm / downsample_genes, the guard included. *)
+   (_in_place) / downsample_cells against make_cbg / to_log2cpm / downsample_genes /
+   downsample_cells_idx, the guard included.
+   SCOPE: the guard holds of what downsample_genes RETURNS.  It is not an invariant of the class:
+   downsample_cells builds a new matrix through the constructor and the flag starts False again
+   (c07_guard_lost_by_downsample_cells below: model and real code alike accept
+   downsample_genes -> downsample_cells -> to_log2CPM).  No caller in the mapping pipeline does
+   that (cells are down-selected on the reference side only, which is already log2CPM): an
+   observation about the class, not a finding about the mapper. *)
 Theorem c07_normalise_after_downsample_rejected :
   forall (R : Type) (lg : frac -> R) (m m' : cbg Z) sel,
   downsample_genes m sel = Ok m' ->
@@ -431,6 +438,19 @@ Example c07_downsample_then_normalise_differs :
   bind (bind (make_cbg genes [row] Raw) (fun m => downsample_genes m sel)) (to_log2cpm frac fnorm)
     = Err EDownsampled.
 Proof. vm_compute. repeat split; try reflexivity. discriminate. Qed.
+
+(* the guard is lost through downsample_cells (audit 3, A13): down-selecting to genes 1, 2, then
+   selecting rows [0], then normalising is ACCEPTED and gives CPM 500000 over the gene subset,
+   where the full-gene-set value is 250000.  Observed identically on the real CellByGeneMatrix
+   (harness/props/c07.py, ops stream, counter guard_lost_via_downsample_cells). *)
+Example c07_guard_lost_by_downsample_cells :
+  let genes := [1; 2; 3] in let row := [1; 1; 2] in let sel := [1; 2] in
+  bind (bind (bind (make_cbg genes [row] Raw) (fun m => downsample_genes m sel))
+             (fun m => downsample_cells_idx m [0%nat])) (to_log2cpm frac fnorm)
+    = Ok (mk_cbg sel [[(500000, 1); (500000, 1)]] Log2CPM false) /\
+  bind (bind (make_cbg genes [row] Raw) (fun m => downsample_genes m sel)) (to_log2cpm frac fnorm)
+    = Err EDownsampled.
+Proof. vm_compute. split; reflexivity. Qed.
 
 (* scale, including an all-zero cell; factors 3 and 5 *)
 Example c07_example_scale :
